@@ -97,7 +97,7 @@ Proof.
 Qed.
 Lemma scrut_elem_ok : forall m cfg t first, g_ok_md m t -> cfg_fine cfg ->
   elem_ok pe front_ok cfg_ok first
-    (EScrut (S (max_bt 2 (md_block_text (g_cmd t) (g_conts t) (gen_body m (g_lines t) (g_code t))))) cfg []
+    (EScrut (S (max_bt 2 (md_block_text (g_cmd t) (g_conts t) (gen_body m (g_lines t) (g_code t))))) cfg [] []
             (Some (g_cmd t, g_conts t, gen_body m (g_lines t) (g_code t))) []) = true.
 Proof.
   intros m cfg t first Hok Hcfg. pose proof Hok as (Ht & Hcmd & Hconts & Hc & Hcode & Hg & Hpe).
